@@ -18,7 +18,10 @@ ASSUMPTIONS = [
   "scaled values: v -> negate*scale*(v - midpoint) with one positive double `scale` is injective and order preserving on the few-bit "
   "values generated (ties stay ties, distinct values stay distinct - also for the nearly tied values base + j 2^-30, whose differences from "
   "the midpoint are exact in double by Sterbenz), so comparisons on doubles and on the exact rationals of the model agree",
-  "one optimised metric, no task costs (the endpoint asserts that no Pareto optimisation is required); finite values",
+  "one optimised metric, no task costs (the endpoint asserts that no Pareto optimisation is required); the values of SUCCESSFUL "
+  "observations are finite; what a FAILED observation stores is arbitrary (ordinary numbers, powers of two up to 2^70, sentinels such as "
+  "+-1e30 and the largest double, +-inf, NaN): the model never reads it (C18_view_ignores_failed_values), the oracle never reads it, and "
+  "the implementation runs on it as stored",
   "'overall best observation' / 'best-valued observation of its cluster' are read strictly: a SUCCESSFUL observation with the best raw "
   "value (the view compares failed observations as +inf); a failed observation is returned only for a cluster without any success",
 ]
@@ -63,7 +66,7 @@ def run_view(inp):
   oi = int(inp.get("opt_index", 0))
   vals = numpy.zeros((n, m))
   for j in range(m):
-    vals[:, j] = inp["values"] if j == oi else [(7 * i + 3 * j) % 5 for i in range(n)]
+    vals[:, j] = [float(v) for v in inp["values"]] if j == oi else [(7 * i + 3 * j) % 5 for i in range(n)]
   objectives = ["maximize" if inp["maximize"] else "minimize"] * m
   if m > 1:  # the other metrics are stored metrics with the opposite objective
     objectives = [o if j == oi else ("minimize" if inp["maximize"] else "maximize") for j, o in enumerate(objectives)]
@@ -83,7 +86,7 @@ def run_view(inp):
     resp = MultisolutionBestAssignments(params).view()
   except AssertionError:
     return None
-  assert (p0 == points).all() and (v0 == vals).all() and (f0 == failures).all(), "the endpoint modified the caller's history"
+  assert (p0 == points).all() and numpy.array_equal(v0, vals, equal_nan=True) and (f0 == failures).all(), "the endpoint modified the caller's history"
   return [int(i) for i in resp["best_indices"]]
 
 
@@ -314,6 +317,45 @@ def gen_values(rng, n):
   return v
 
 
+# What a FAILED observation stores in its value slot is arbitrary: the client reports "failed" and some number comes along - an
+# ordinary value, a number far outside the range of the successful ones, a sentinel (1e30, the largest double, -999999), an
+# infinity or NaN.  The property quantifies over all histories with failures and names the successful values only, so none of
+# these may matter.  Non-finite numbers are written as the strings "inf" / "-inf" / "nan" (plain JSON; float() reads them back).
+FLOAT_MAX = 1.7976931348623157e308
+FAILED_SENTINELS = [1e30, -1e30, FLOAT_MAX, -FLOAT_MAX, 1e308, -999999.0, 9.9e99, -1e100, 3.4028234663852886e38]
+FAILED_STORED_CLASSES = ["as-generated", "as-generated", "far", "sentinel", "sentinel", "inf", "nan", "mixed", "mixed"]
+
+
+def _one_failed_stored(rng, cls):
+  if cls == "far":       # a power of two far outside the successful values (2^20 .. 2^70): an exact double and rational
+    return rng.choice([1, -1]) * 2.0 ** rng.randint(20, 70)
+  if cls == "sentinel":
+    return rng.choice(FAILED_SENTINELS)
+  if cls == "inf":
+    return rng.choice(["inf", "-inf"])
+  return "nan"
+
+
+def store_with_failed(rng, values, failures):
+  """the value list in which the failed observations store something else (successes untouched); returns (values, class)"""
+  if not any(failures):
+    return list(values), "none-failed"
+  cls = rng.choice(FAILED_STORED_CLASSES)
+  if cls == "as-generated":
+    return list(values), cls
+  out = list(values)
+  for i, f in enumerate(failures):
+    if f:
+      c = rng.choice(["as-generated", "far", "sentinel", "inf", "nan"]) if cls == "mixed" else cls
+      if c != "as-generated":
+        out[i] = _one_failed_stored(rng, c)
+  return out, cls
+
+
+def is_finite_number(v):
+  return not isinstance(v, str) and v == v and abs(v) != float("inf")
+
+
 def gen_view_points(rng, comps, n, geo):
   """Observed configurations.  geo: 'grid' (inside the bounds, multiples of width/8), 'oob' (some numeric coordinates outside the
   current bounds), 'coincident' (groups of nearly coincident observations: double parameters differ by a few multiples of
@@ -374,7 +416,8 @@ def gen_view(rng, malformed=False, square=True):
   if malformed:
     k = rng.choice([0, 1, n, n + 1])
   m = rng.choice([1, 1, 2, 3])
-  return dict(components=comps, points=base, values=gen_values(rng, n), failures=failures, maximize=rng.random() < 0.5, k=k,
+  values, _ = store_with_failed(rng, gen_values(rng, n), failures)
+  return dict(components=comps, points=base, values=values, failures=failures, maximize=rng.random() < 0.5, k=k,
               num_metrics=m, opt_index=rng.randrange(m))
 
 
@@ -401,8 +444,12 @@ def coq_case(kind, inp, out):
     return f"CKC {pts_lit(inp['points'])} {C.nlit(inp['first'])} {C.nlit(inp['k'])} {o}"
   tgt = float(numpy.sqrt(one_hot_dim(inp["components"])))
   o = "None" if out is None else f"(Some {nl(out)})"
+  # The model runs on the history as stored (a finite sentinel such as 1e30 or the largest double is a rational like any other).
+  # An infinity or NaN stored with a FAILED observation is not a rational: the case handed to Coq carries 0 in its place, which by
+  # C18_view_ignores_failed_values does not change the model's answer; the implementation ran on the real stored value.
+  vals = [v if (is_finite_number(v) or not f) else 0 for v, f in zip(inp["values"], inp["failures"])]
   return (f"CView {C.listlit([comp_lit(c) for c in inp['components']])} {C.qlit(tgt)} {pts_lit(inp['points'])} "
-          f"{C.listlit(inp['values'], C.qlit)} {C.listlit(inp['failures'], C.blit)} {C.blit(inp['maximize'])} {C.nlit(inp['k'])} {o}")
+          f"{C.listlit(vals, C.qlit)} {C.listlit(inp['failures'], C.blit)} {C.blit(inp['maximize'])} {C.nlit(inp['k'])} {o}")
 
 
 def _spread_class(vals):
@@ -417,6 +464,21 @@ def _spread_class(vals):
   if min(abs(mx), abs(mn)) > 1:
     return "values:nearly-tied:degenerate-scale:" + ("below-minus-1" if mx < 0 else "above-plus-1")
   return "values:nearly-tied:degenerate-unit-scale"
+
+
+def _failed_stored_class(v, ok):
+  """what a failed observation stores, relative to the successful values `ok`"""
+  if isinstance(v, str) or v != v or abs(v) == float("inf"):
+    return "failed-stores:" + ("nan" if (v == "nan" or v != v) else "infinity")
+  if not ok:
+    return "failed-stores:finite(no-success)"
+  lo, hi = min(ok), max(ok)
+  if lo <= v <= hi:
+    return "failed-stores:inside-success-range"
+  ref = max(abs(lo), abs(hi), hi - lo, 1e-300)
+  if abs(v) >= 2.0 ** 53 * ref:
+    return "failed-stores:beyond-2^53-times-the-successes"     # successes are below the rounding unit of this number
+  return "failed-stores:far-outside(>=2^20x)" if abs(v) >= 2.0 ** 20 * ref else "failed-stores:outside-success-range"
 
 
 def _min_gap2(rows):
@@ -444,7 +506,8 @@ def features(kind, inp, out):
     fl = inp["failures"]
     f.append("all-failed" if all(fl) else "some-failed" if any(fl) else "no-failed")
     ok = [v for v, b in zip(inp["values"], fl) if not b]
-    f.append("successes-all-tied" if ok and len(set(ok)) == 1 else "tied-values" if len(set(inp["values"])) < len(fl) else "distinct-values")
+    f.append("successes-all-tied" if ok and len(set(ok)) == 1 else "tied-values" if len(set(map(str, inp["values"]))) < len(fl) else "distinct-values")
+    f += sorted(set(_failed_stored_class(v, ok) for v, b in zip(inp["values"], fl) if b))
     f.append(_spread_class(ok))
     pts = [tuple(p) for p in inp["points"]]
     f.append("dup-points" if len(set(pts)) < len(pts) else "distinct-points")
@@ -495,7 +558,8 @@ def correspondence(ctx):
                    "with power-of-two widths, up to two categoricals, relaxed dimension 4/9/16 when categorical) with 3..10 observations, "
                    "duplicated configurations, observations outside the current bounds of numeric parameters (up to two widths), groups of "
                    "nearly coincident observations on the double parameters, tied / constant / nearly tied values (steps of 2^-30 around "
-                   "-1000..1000: both sub-branches of the degenerate-scale branch and the 1e-8 half-width boundary), zero/some/all failures, "
+                   "-1000..1000: both sub-branches of the degenerate-scale branch and the 1e-8 half-width boundary), zero/some/all failures, failed "
+                   "observations storing ordinary values / powers of two far outside the successes / sentinels (1e30, float max) / inf / NaN, "
                    "both objectives, stored metrics beside the optimised one, every 2<=k<n; every squared distance of every case is exact in "
                    "double (checked per case: all terms multiples of one granule, total below 2^53 granules); a malformed stream "
                    "(k in {0,1,n,n+1}, first index out of range) for the assertion branches; non-trivial = the implementation returned a "
@@ -619,7 +683,8 @@ def oracle_view(inp):
     return fail("not-k-distinct-valid-indices", "the result is not k distinct observation indices in range", k, out)
   fails = list(inp["failures"])
   sgn = -1 if inp["maximize"] else 1
-  raw = [sgn * _fr(v) for v in inp["values"]]          # smaller is better
+  # smaller is better; the value stored with a FAILED observation is never read (it may be a sentinel, an infinity, NaN)
+  raw = [None if fails[i] else sgn * _fr(v) for i, v in enumerate(inp["values"])]
   succ = [i for i in range(n) if not fails[i]]
   # what "best-valued" means: every successful observation is better than every failed one; successes are ordered by their raw
   # value for the objective; failed observations are all alike.  eff is that order as a sortable key.
@@ -792,6 +857,7 @@ def gen_float_view(rng):
   pf = rng.choice([0, 0.2, 0.6])
   fails = [rng.random() < pf for _ in range(n)]
   m = rng.choice([1, 2])
+  vals, _ = store_with_failed(rng, vals, fails)
   return dict(components=comps, points=pts, values=vals, failures=fails, maximize=rng.random() < 0.5, k=k,
               num_metrics=m, opt_index=rng.randrange(m))
 
@@ -816,6 +882,16 @@ def search(ctx, hints, broken):
       n += 1
       add(oracle(dict(kind="view", components=one, points=pts, values=[-v for v in vals] if mx else vals, failures=fl, maximize=mx, k=2,
                       num_metrics=1, opt_index=0)))
+  # a failed observation storing a sentinel / infinity / NaN (every class of store_with_failed, both objectives): five observations
+  # on a line, the best success (index 2) is neither the first observation nor the first of its cluster
+  for stored in FAILED_SENTINELS[:4] + [2.0 ** 60, -2.0 ** 60, "inf", "-inf", "nan"]:
+    for mx in (False, True):
+      vals = [5.0, 0.0, 3.0, 6.0, 4.0]
+      vals = [-v for v in vals] if mx else vals
+      vals[1] = stored
+      n += 1
+      add(oracle(dict(kind="view", components=one, points=[[0.0], [4.0], [1.0], [3.0], [0.5]], values=vals,
+                      failures=[False, True, False, False, False], maximize=mx, k=2, num_metrics=1, opt_index=0)))
   budget = ctx.n(1500, 25000) * (2 if broken else 1)
   rng = ctx.rng
   for _ in range(budget):
@@ -857,3 +933,8 @@ DESIGN_REF = "DESIGN.md section 7, C18"
 LEVEL_TEXT += ("; the link to raw values: the first returned index is the first successful observation with the best raw value, every "
                "returned index is the first best success of its cluster, a failed observation is returned only for a cluster without "
                "any success (C18_view_strict); the strict specification is also evaluated in Coq on the implementation's own output")
+
+# --- gap round: what a failed observation stores
+LEVEL_TEXT += ("; the number stored with a FAILED observation never matters: scale, midpoint, lie, compared values and the answer are functions of the successful "
+               "values and the failure mask alone (C18_scaled_values_ignore_failed_values, C18_view_ignores_failed_values, C18_view_depends_on_successes_only), and "
+               "the generated histories store ordinary numbers, far-away powers of two, sentinels (1e30, the largest double), infinities and NaN there")
